@@ -146,7 +146,7 @@ pub fn exec(input: &Value) -> Value {
         }));
     }
     // Item / Items (utils/mod.rs): the records of rendering 0 as the items of the column `item: Struct(schema)`.
-    // Three ways that must give identical arrays: the real `Items(&[T])` wrapper, a slice of real `Item(T)`
+    // Ways that must give identical arrays: the real `Items(&[T])` wrapper, a slice of real `Item(T)`
     // wrappers, and explicit one-field records named `item` (what the wrappers are documented to behave like).
     let item_field = marrow::datatypes::Field {
         name: "item".to_string(),
@@ -167,6 +167,28 @@ pub fn exec(input: &Value) -> Value {
         let explicit: Vec<Value> =
             base.iter().map(|v| sval::record("Item", vec![("item".to_string(), 0, v.clone())])).collect();
         items_outs.push(outcome::run(|| serde_arrow::to_marrow(&item_fields, &Rows(&explicit)).map(dump_arrs)));
+        // API coverage: the other containers `Items` is implemented for — `Items<Vec<T>>`, `Items<&Vec<T>>`, and for
+        // batches of up to three records `Items<[T; N]>` / `Items<&[T; N]>` (all documented to behave like `Items(&[T])`);
+        // on every second case (time budget of the quick tier)
+        let extra = input["seed"].as_u64().unwrap_or(0) % 2 == 0;
+        let owned: Vec<SVal> = if extra { base.iter().map(SVal).collect() } else { Vec::new() };
+        if extra {
+        items_outs.push(outcome::run(|| serde_arrow::to_marrow(&item_fields, &serde_arrow::utils::Items(&owned)).map(dump_arrs)));
+        items_outs.push(outcome::run(|| serde_arrow::to_marrow(&item_fields, serde_arrow::utils::Items(owned)).map(dump_arrs)));
+        }
+        macro_rules! arrays {
+            ($($n:literal),*) => {
+                match base.len() {
+                    $($n if extra => {
+                        let arr: [SVal; $n] = std::array::from_fn(|i| SVal(&base[i]));
+                        items_outs.push(outcome::run(|| serde_arrow::to_marrow(&item_fields, &serde_arrow::utils::Items(&arr)).map(dump_arrs)));
+                        items_outs.push(outcome::run(|| serde_arrow::to_marrow(&item_fields, serde_arrow::utils::Items(arr)).map(dump_arrs)));
+                    })*
+                    _ => {}
+                }
+            };
+        }
+        arrays!(0, 1, 2, 3);
     }
     let mut case = input.clone();
     let obj = case.as_object_mut().unwrap();
